@@ -349,6 +349,9 @@ T_SPECS = [
     "d/e/f/", "top/..",
     # siblings whose names merely *extend* a base directory's name (string prefix, not a path prefix)
     "d-x/y", "dd/y", "d/e-x/y", "d-x", "../p2/y", "d-x/new",
+    # a target in a directory that does not exist YET (its script will create it), below a symbolic link: what the name
+    # resolves to must not depend on whether that directory exists already
+    "ld/nd/x", "lq2/nd/x", "labs/nd/sub/x", "q/lup/nd/x", "d/nd/x",
 ]
 CWDS = ["", "d", "d/e", "ld", "q", "lq2"]           # relative to P; "ld"/"lq2" are entered through the symlink
 PHYS_DEPTH = {"": 0, "d": 1, "d/e": 2, "ld": 1, "q": 1, "lq2": 2}
@@ -421,9 +424,27 @@ def judge_relpath(cwd_abs, t, base, ans):
     return "ok", None
 
 
+def ref_resolve(path_abs):
+    """where a not-yet-existing path will be: the longest existing directory prefix resolved physically, the rest as written"""
+    d, n = os.path.split(e4.ref_clean(path_abs))
+    rest = []
+    while d not in ("", "/") and not os.path.isdir(d):
+        d, c = os.path.split(d)
+        rest.append(c)
+    return os.path.join(os.path.realpath(d or "/"), *reversed(rest), n)
+
+
 def judge_realdirpath(cwd_abs, t, ans):
     os.chdir(cwd_abs)
     lid_t, par_t, name_t = entry(t if t != "" else ".")
+    if "ok" in ans and lid_t is None and par_t is None and t and not t.endswith("/") and "/nd/" in t:
+        # the directory does not exist yet: the answer must be what it will be once the directory exists
+        want = ref_resolve(t if os.path.isabs(t) else os.path.join(cwd_abs_phys(cwd_abs), t))
+        got = e4.ref_clean(os.path.join(cwd_abs_phys(cwd_abs), ans["ok"]))
+        if got != want:
+            return "bad", {"why": "a path below a not-yet-existing directory is not resolved through the symlinks above it",
+                           "result": ans["ok"], "expected": want}
+        return "ok", None
     if "panic" in ans:
         return "bad", {"why": "panic", "msg": ans["panic"]}
     if "err" in ans:
